@@ -275,7 +275,12 @@ Definition wf_opb (o : op) : bool :=
 Definition wf_opsb (ops : list op) : bool := forallb wf_opb ops.
 
 (** ---- cases ---- *)
-Record case := { c_ids : list Z; c_t0 : Z; c_ops : list op; c_obs : list obs }.
+(** [c_fault]: a send-fault history — some housekeeping passes ran with scripted send errors on an uplink that
+    is down (its REG1 / REG2 re-send fails on the socket it still has).  The model has no send-result input
+    (a re-send always puts its frame on the wire), so such a history is judged by the monitor on the
+    implementation's own trace only (bit1); it is not compared with the model (bit0 only reports an ill-formed
+    case).  Every other history is compared step by step as before. *)
+Record case := { c_ids : list Z; c_t0 : Z; c_ops : list op; c_obs : list obs; c_fault : bool }.
 
 (** short constructor names with argument scopes, for compact case text *)
 Definition LO := Build_lobs.
@@ -292,7 +297,8 @@ Definition DU := Build_dump.
 Definition BH (len n : Z) : list Z := be_bytes (Z.to_nat len) n.
 Definition FB (len n : Z) : frame := FBytes (BH len n).
 Definition FG := FLong.
-Definition CA := Build_case.
+Definition CA ids t0 ops obs := Build_case ids t0 ops obs false.
+Definition CF ids t0 ops obs := Build_case ids t0 ops obs true.
 Arguments OPkt _%nat _%Z _%Z.
 Arguments OMark _%nat.
 Arguments OSetTimeout _%nat _%Z.
@@ -312,7 +318,7 @@ Definition check_case (c : case) : N :=
   let d := first_diff (run (c_ids c) (c_t0 c) (c_ops c)) (c_obs c) 0 in
   let wf := wf_opsb (c_ops c) && (length (c_obs c) =? length (c_ops c))%nat in
   let '(cl, st) := mon_C14 n (c_ops c) (c_obs c) in
-  let b0 := if (d =? 0)%N && wf then 0%N else 1%N in
+  let b0 := if ((d =? 0)%N || c_fault c) && wf then 0%N else 1%N in
   let b1 := if (cl =? 0)%N then 0%N else 2%N in
   if ((b0 + b1) =? 0)%N then 0%N
   else (b0 + b1 + 4 * (cl + 256 * (if (cl =? 0)%N then d else st)))%N.
